@@ -545,7 +545,8 @@ pub fn replay_tying(case: &Value, rep: &mut Report, rng: &mut Rng) {
             }
         })
         .collect();
-    let width = if spatial { 16 } else { block[0][1].as_u64().unwrap() as usize };
+    // a dense block consumes what its last layer produces
+    let width = if spatial { 16 } else { block[block.len() - 1][1].as_u64().unwrap() as usize };
     // "<kind>-decay": the same optimizer with weight decay (an update that rewrites its gradient argument)
     let mut optimizer = match opt.trim_end_matches("-decay") {
         "sgd" => json!({"kind": "sgd", "lr": 0.0625}),
